@@ -122,6 +122,69 @@ def run_solver(smt_text, solver=Z3_NEW, timeout_s=60, mem_mb=8000):
     return "error", dt, out + p.stderr.decode(errors="replace")
 
 
+def _classify(out):
+    errs = [l for l in out.splitlines() if "(error" in l and "model is not available" not in l
+            and "cannot get model" not in l.lower()]
+    if errs:
+        return "error"
+    first = out.strip().split("\n", 1)[0].strip() if out.strip() else ""
+    if first in ("sat", "unsat", "unknown"):
+        return first
+    return "timeout" if ("timeout" in out or "interrupted" in out.lower() or not out.strip()) else "error"
+
+
+def run_portfolio(smt_text, timeout_s=60, mem_mb=8000, linger_s=3):
+    """z3 5.1 and cvc5 side by side on the same query; the first decisive answer (sat/unsat) wins.
+    The other solver is given `linger_s` more seconds: if it answers the opposite, the result is
+    'disagree'. Returns (answer, seconds, raw_output_of_winner, solver_name, note)."""
+    t0 = time.time()
+    data = smt_text.encode()
+    cmds = {
+        "z3-5.1.0": [Z3_NEW, "-in", "-T:%d" % int(timeout_s), "-memory:%d" % mem_mb],
+        "cvc5-1.0": [CVC5, "--lang", "smt2", "--tlimit=%d" % int(timeout_s * 1000), "--produce-models"],
+    }
+    procs = {}
+    for name, cmd in cmds.items():
+        p = subprocess.Popen(cmd, stdin=subprocess.PIPE, stdout=subprocess.PIPE, stderr=subprocess.DEVNULL)
+        try:
+            p.stdin.write(data)
+            p.stdin.close()
+        except BrokenPipeError:
+            pass
+        procs[name] = p
+    answers = {}
+    winner = None
+    deadline = t0 + timeout_s + 10
+    while procs and time.time() < deadline:
+        for name in list(procs):
+            p = procs[name]
+            if p.poll() is not None:
+                out = p.stdout.read().decode(errors="replace")
+                answers[name] = (_classify(out), out)
+                del procs[name]
+                if winner is None and answers[name][0] in ("sat", "unsat"):
+                    winner = name
+                    deadline = min(deadline, time.time() + linger_s)
+        if procs:
+            time.sleep(0.01)
+    for p in procs.values():
+        p.kill()
+        try:
+            p.wait(timeout=5)
+        except Exception:
+            pass
+    dt = time.time() - t0
+    note = ",".join("%s:%s" % (k, v[0]) for k, v in sorted(answers.items()))
+    if winner is None:
+        kinds = {v[0] for v in answers.values()}
+        ans = "error" if kinds == {"error"} else ("unknown" if "unknown" in kinds else "timeout")
+        return ans, dt, "", "z3-5.1.0+cvc5-1.0", note
+    decisive = {v[0] for v in answers.values() if v[0] in ("sat", "unsat")}
+    if len(decisive) == 2:
+        return "disagree", dt, answers[winner][1], winner, note
+    return answers[winner][0], dt, answers[winner][1], winner, note
+
+
 def parse_model(raw):
     """Parse z3 `(get-model)` output for Int constants -> {name: int}."""
     import re
